@@ -20,6 +20,9 @@ type Native struct {
 	testBins map[string]string // package import path -> compiled test binary
 	ovPaths  map[string]string
 	BuildLog string
+	// SymJSON: when set, every native run gets the job's configuration plus zz_sym.json with
+	// this content (the verification-only class Sym declared natively with the witnessed kinds).
+	SymJSON string
 }
 
 func goEnv() []string {
@@ -63,9 +66,20 @@ func (n *Native) RunTi(files map[string]string, args []string, cfg string) (stri
 	wd, _ := os.MkdirTemp(n.Dir, "run-")
 	defer os.RemoveAll(wd)
 	if cfg == "" {
-		os.Symlink(filepath.Join(repoDir, "test", ".ti-config"), filepath.Join(wd, ".ti-config"))
-	} else {
+		cfg = filepath.Join(repoDir, "test", ".ti-config")
+	}
+	if n.SymJSON == "" {
 		os.Symlink(cfg, filepath.Join(wd, ".ti-config"))
+	} else {
+		dir := filepath.Join(wd, ".ti-config")
+		os.MkdirAll(dir, 0o755)
+		ents, _ := os.ReadDir(cfg)
+		for _, e := range ents {
+			if real, err := filepath.EvalSymlinks(filepath.Join(cfg, e.Name())); err == nil && e.Name() != "zz_sym.json" {
+				os.Symlink(real, filepath.Join(dir, e.Name()))
+			}
+		}
+		os.WriteFile(filepath.Join(dir, "zz_sym.json"), []byte(n.SymJSON), 0o644)
 	}
 	for name, content := range files {
 		p := filepath.Join(wd, name)
@@ -214,12 +228,12 @@ func (n *Native) ReplayProgram(v *Violation, cfgName string) ReplayResult {
 		out, code, _ := n.RunTi(map[string]string{"a.rb": src}, args, cfg)
 		res.Observed = tail(out, 1200)
 		res.Reproduced = code != 0 && (strings.Contains(out, "panic:") || strings.Contains(out, "fatal error:")) ||
-			code == 1 && strings.TrimSpace(out) == "timeout" && strings.Contains(v.Kind, "stack-overflow")
+			code == 1 && isTimeoutOut(out) && strings.Contains(v.Kind, "stack-overflow")
 	case v.Kind == "assert" && v.ID == "C01-output-lines":
 		out, code, _ := n.RunTi(map[string]string{"a.rb": src}, args, cfg)
 		res.Observed = tail(out, 600)
 		bad := false
-		if code == 0 && strings.TrimSpace(out) != "timeout" {
+		if code == 0 && !isTimeoutOut(out) {
 			for _, line := range strings.Split(strings.TrimSuffix(out, "\n"), "\n") {
 				if out != "" && !strings.HasPrefix(line, "./a.rb:::") && !strings.HasPrefix(line, "@./a.rb:::") {
 					bad = true
@@ -233,11 +247,18 @@ func (n *Native) ReplayProgram(v *Violation, cfgName string) ReplayResult {
 		for i := 0; i < 3; i++ {
 			out, _, capHit := n.RunTi(map[string]string{"a.rb": src}, args, cfg)
 			res.Observed = tail(out, 400)
-			if strings.TrimSpace(out) == "timeout" || capHit {
+			if isTimeoutOut(out) || capHit {
 				hung++
 			}
 		}
 		res.Reproduced = hung == 3
 	}
 	return res
+}
+
+// isTimeoutOut: the watchdog's `timeout` is the last line printed (dbtp lines printed before
+// it fired may precede it).
+func isTimeoutOut(s string) bool {
+	s = strings.TrimSpace(s)
+	return s == "timeout" || strings.HasSuffix(s, "\ntimeout")
 }
